@@ -647,6 +647,18 @@ def rewrite_generated_body(fn, body, log):
         return m.group(0).replace('|result| vec![result]', '|result: %s| -> (v: Vec<%s>) ensures v@ =~= seq![result] { vec![result] }' % (t, t))
     return X15_RE.sub(rep, body)
 
+X18_RE = re.compile(r"parse_Whitespace\((state(?:\.clone\(\))?), &mut \*global\)\s*\.and_then\(\|ParseOk \{ state, \.\. \}\| (parse_\w+\(state, [^()|]*\))\)")
+
+def unfold_ws_and_then(fn, body, log):
+    """X18: `parse_Whitespace(S, &mut *global).and_then(|ParseOk { state, .. }| parse_X(state, ARGS))` - a closure that
+    captures `&mut global` (outside Verus) - is unfolded by the definition of Result::and_then into
+    `(match parse_Whitespace(S, &mut *global) { Ok(ParseOk { state, .. }) => parse_X(state, ARGS), Err(x18_e) => Err(x18_e) })`.
+    The closure's parameter pattern becomes the match pattern, its body the arm, verbatim; ARGS contains no closure."""
+    def rep(m):
+        log.append({'rule': 'X18', 'fn': fn, 'what': 'and_then over parse_Whitespace unfolded into a match: %s' % m.group(2)[:40]})
+        return '(match parse_Whitespace(%s, &mut *global) { Ok(ParseOk { state, .. }) => %s, Err(x18_e) => Err(x18_e) })' % (m.group(1), m.group(2))
+    return X18_RE.sub(rep, body)
+
 def emit_generated_module(out, src, lo, hi, modpath, contracts, relfile, indent=''):
     """emit the items of src[lo:hi] (a module body of the generated file), recursing into nested modules"""
     for it in items(src, lo, hi):
@@ -707,13 +719,16 @@ def emit_generated_module(out, src, lo, hi, modpath, contracts, relfile, indent=
                 out.log.append({'rule': 'X8', 'fn': (modpath + '::' if modpath else '') + name, 'what': 'not extracted: rule wrapper (closure capturing &mut global: outside Verus)'})
                 continue
             key = (relfile, modpath or '-', name)
-            has_typed_closures = key in contracts and contracts[key].substs and '.choice(|' not in it.body and '.and_then(|' not in it.body
-            if ('.choice(|' in it.body or '.and_then(|' in it.body or '.or_else(|' in it.body) and not has_typed_closures:
+            x18_body = unfold_ws_and_then((modpath + '::' if modpath else '') + name, it.body, []) if key in contracts else it.body
+            within_reach = '.choice(|' not in it.body and '.and_then(|' not in x18_body and ('.or_else(|' not in it.body or bool(key in contracts and contracts[key].substs))
+            if not within_reach:
                 out.log.append({'rule': 'X8', 'fn': (modpath + '::' if modpath else '') + name, 'what': 'not extracted: closure capturing &mut global or the moved state (choice / whitespace / optional template)'})
                 continue
             sub = Item(src, it.start, it.end, it.attrs_end, it.header_end, it.body_open, it.body_close)
             # body rewrite X15 happens through a shim item whose text carries the rewritten body
             newbody = rewrite_generated_body((modpath + '::' if modpath else '') + name, it.body, out.log)
+            if key in contracts:
+                newbody = unfold_ws_and_then((modpath + '::' if modpath else '') + name, newbody, out.log)
             shim_src = src[:it.body_open + 1] + newbody + src[it.body_close:]
             delta = len(newbody) - len(it.body)
             shim = Item(shim_src, it.start, it.end + delta, it.attrs_end, it.header_end, it.body_open, it.body_close + delta)
